@@ -12,7 +12,7 @@ import anyio
 
 from ..explore import E1Check
 
-FILTERS = ("all", "even", "nonepass", "none")
+FILTERS = ("all", "even", "nonepass", "none", "falsy-even")
 
 
 class HE(Exception):
@@ -20,7 +20,7 @@ class HE(Exception):
 
 
 def passes(flt: str, n: int) -> bool:
-    return {"all": True, "none": True, "even": n % 2 == 0, "nonepass": False}[flt]
+    return {"all": True, "none": True, "even": n % 2 == 0, "nonepass": False, "falsy-even": n % 2 == 0}[flt]
 
 
 class C10(E1Check):
@@ -70,7 +70,7 @@ class C10(E1Check):
                 progs.append({"plan": plan, "subs": [dict(a, q=1), dict(b, q=2)], "wait": None})
         # wait_event
         for plan in plans:
-            for flt in ("all", "even", "nonepass"):
+            for flt in ("all", "even", "nonepass", "falsy-even"):
                 for ss in sigsets:
                     progs.append({"plan": plan, "subs": [], "wait": {"sigs": ss, "filter": flt}})
                     progs.append({"plan": plan, "subs": [{"sigs": "a0", "filter": "all", "k": 1, "leave": "exit", "q": 1}], "wait": {"sigs": ss, "filter": flt}})
@@ -149,6 +149,17 @@ class C10(E1Check):
                 log("pulled", idx, ev.n)
                 return passes(flt, ev.n)
 
+            if flt == "falsy-even":
+                class FalsyFilter:
+                    """a filter object that happens to be falsy (e.g. an empty allow-list with __len__)"""
+
+                    def __len__(self) -> int:
+                        return 0
+
+                    def __call__(self, ev: Any) -> bool:
+                        return f(ev)
+
+                return FalsyFilter()
             return f
 
         def rescue_if_stuck(scope: Any, who: Any) -> None:
